@@ -1,0 +1,52 @@
+//go:build verif
+
+// Read-only export of the package's ordering/validation tables for the
+// verification harness (build tag "verif").
+
+package aa
+
+import "sort"
+
+// VerifTables returns copies of the unexported tables the comparison, merge
+// and log-dispatch code is driven by.
+func VerifTables() map[string]any {
+	kinds := make([]string, 0, len(ruleAlphabet))
+	for _, k := range ruleAlphabet {
+		kinds = append(kinds, string(k))
+	}
+	req := map[string]map[string][]string{}
+	for k, r := range requirements {
+		req[string(k)] = map[string][]string{}
+		for key, vals := range r {
+			req[string(k)][key] = append([]string{}, vals...)
+		}
+	}
+	logKeys := make([]string, 0, len(newLogMap))
+	for k := range newLogMap {
+		logKeys = append(logKeys, k)
+	}
+	sort.Strings(logKeys)
+	mountKeys := make([]string, 0, len(newLogMountMap))
+	for k := range newLogMountMap {
+		mountKeys = append(mountKeys, k)
+	}
+	sort.Strings(mountKeys)
+	groups := map[string]string{}
+	for k, v := range fileAlphabetGroups {
+		groups[k] = v
+	}
+	m2a := map[string]string{}
+	for k, v := range maskToAccess {
+		m2a[k] = v
+	}
+	return map[string]any{
+		"ruleAlphabet":       kinds,
+		"fileAlphabet":       append([]string{}, fileAlphabet...),
+		"fileAlphabetGroups": groups,
+		"stringAlphabet":     string(stringAlphabet),
+		"requirements":       req,
+		"maskToAccess":       m2a,
+		"logKeys":            logKeys,
+		"logMountKeys":       mountKeys,
+	}
+}
